@@ -54,6 +54,7 @@ class World:
                 workers = self.manager.workers
                 if slot < len(workers) and workers[slot].alive:
                     workers[slot].alive = False
+                    workers[slot].exit_status = ev[2] if len(ev) > 2 else 1       # 0 = clean exit (e.g. max-tasks recycle)
                     self.rec("die", slot=slot, pid=workers[slot].pid, s=pos)
                 else:
                     self.rec("noop", s=pos)
@@ -81,6 +82,14 @@ class FakeProcess:
         self.alive = False
         self.reaped = False
         self.started = False
+        self.exit_status = 0
+
+    @property
+    def exitcode(self) -> Optional[int]:
+        """Like multiprocessing: None while running, the exit status afterwards."""
+        if self.alive or not self.started:
+            return None
+        return self.exit_status
 
     def _slot(self) -> int:
         try:
@@ -101,6 +110,7 @@ class FakeProcess:
     def terminate(self) -> None:
         assert WORLD is not None
         WORLD.rec("terminate", pid=self.pid or 0)
+        self.exit_status = -15
         if WORLD.scn["cfg"].get("slow_stop") and self.alive:
             self.stopping = True       # graceful shutdown takes a while: still alive until waited for
         else:
